@@ -5,7 +5,7 @@ from ..src import norm, walk_no_nested, AnalysisError
 
 META = {
     'title': 'Relations borrowed through expand lexicons are mapped by ILI as documented',
-    'technique': 'provenance of yielded values by select-list position; nullness dominance at every yield; shape of the default-expand computation',
+    'technique': 'effect summaries of Synset._iter_expanded_relations, _iter_relations and Wordnet.__init__ with row positions resolved through the select lists of the queries; row-flow trace of the default expand set',
     'explanation': (
         'The many-to-many mapping results over all lexicon pairs are runtime values and are not decided. Decided: R1 provenance in '
         'Synset._iter_expanded_relations - source synsets come from find_synsets(ili=own ILI) scoped by _expanded_ids (own row and '
